@@ -70,11 +70,17 @@ type iniValue struct {
 	LineNumber uint
 }
 
-type iniSection []iniValue
+type iniSection struct {
+	Name   string
+	Values []iniValue
+}
 
 type ini struct {
-	File     string
-	Sections map[string]iniSection
+	File string
+
+	// Sections in the order in which they appear in the file, starting with
+	// the unnamed global section
+	Sections []iniSection
 }
 
 // NewIniParser creates a new ini parser for a given Parser.
@@ -373,17 +379,13 @@ func readIniFromFile(filename string) (*ini, error) {
 
 func readIni(contents io.Reader, filename string) (*ini, error) {
 	ret := &ini{
-		File:     filename,
-		Sections: make(map[string]iniSection),
+		File: filename,
 	}
 
 	reader := bufio.NewReader(contents)
 
 	// Empty global section
-	section := make(iniSection, 0, 10)
-	sectionname := ""
-
-	ret.Sections[sectionname] = section
+	ret.Sections = append(ret.Sections, iniSection{Name: ""})
 
 	var lineno uint
 
@@ -423,13 +425,7 @@ func readIni(contents io.Reader, filename string) (*ini, error) {
 				}
 			}
 
-			sectionname = name
-			section = ret.Sections[name]
-
-			if section == nil {
-				section = make(iniSection, 0, 10)
-				ret.Sections[name] = section
-			}
+			ret.Sections = append(ret.Sections, iniSection{Name: name})
 
 			continue
 		}
@@ -463,14 +459,14 @@ func readIni(contents io.Reader, filename string) (*ini, error) {
 			}
 		}
 
-		section = append(section, iniValue{
+		section := &ret.Sections[len(ret.Sections)-1]
+
+		section.Values = append(section.Values, iniValue{
 			Name:       name,
 			Value:      value,
 			Quoted:     quoted,
 			LineNumber: lineno,
 		})
-
-		ret.Sections[sectionname] = section
 	}
 
 	return ret, nil
@@ -505,7 +501,8 @@ func (i *IniParser) parse(ini *ini) error {
 
 	var quotesLookup = make(map[*Option]bool)
 
-	for name, section := range ini.Sections {
+	for _, section := range ini.Sections {
+		name := section.Name
 		groups := i.matchingGroups(name)
 
 		if len(groups) == 0 {
@@ -516,7 +513,7 @@ func (i *IniParser) parse(ini *ini) error {
 			continue
 		}
 
-		for _, inival := range section {
+		for _, inival := range section.Values {
 			var opt *Option
 
 			for _, group := range groups {
